@@ -69,6 +69,12 @@ def judge_resume_eq(world, out, prop="C12"):
         rest = _by(recs, "restored", i)
         if not rest or src not in begins:
             continue
+        le = _by(recs, "loop_enter", src[0])
+        if not le or begins[src]["n"] < le[0]["n"]:
+            # a (signal-triggered) checkpoint written while the sampler was still being initialised holds partly
+            # initialised objects that the resume legitimately completes: outside C12's quantifier
+            info["pre_loop_checkpoints_skipped"] = info.get("pre_loop_checkpoints_skipped", 0) + 1
+            continue
         want = begins[src]["digest"]
         got = rest[0]["digest"]
         info["resumes_checked"] += 1
@@ -217,7 +223,7 @@ def judge_completion(world, out, prop):
             return viol
         e = _by(recs, "exception")[-1]
         viol.append({"oracle": f"{prop}-COMPLETE",
-                     "key": f"{prop}-COMPLETE|{e.get('type')}|{e.get('phase')}|{len(incs) > 1 and 'resumed' or 'fresh'}",
+                     "key": f"{prop}-COMPLETE|{e.get('type')}@{e.get('site')}",
                      "detail": {"what": "run raised", "inc": last["inc"], "exception": e.get("type"),
                                 "msg": e.get("msg", "")[:300], "phase": e.get("phase"),
                                 "tb": e.get("tb", "")[-900:]}, "world": world})
